@@ -76,10 +76,8 @@ func (lc *litCtx) goLit(x *Term, t types.Type) string {
 		for i := 0; i < u.NumFields(); i++ {
 			f := u.Field(i)
 			if f.Pkg() != nil && f.Pkg() != lc.pkg && !f.Exported() {
-				fx := SelField(c, i, x)
-				if fx != zeroOfSort(fx.Sort, f.Type()) {
-					return lc.fail("unexported field %s of foreign type needs a non-zero value", f.Name())
-				}
+				// unexported field of a foreign type (e.g. time.Time): the replay uses the zero
+				// value; if that matters the replay simply does not reproduce.
 				continue
 			}
 			fs = append(fs, f.Name()+": "+lc.goLit(SelField(c, i, x), f.Type()))
